@@ -6,10 +6,11 @@ ASSUMPTIONS = [
     'self-composition: two GMGPolar states with identical options, real setup() on both; the "used" one then gets ARBITRARY leftovers in every member setup()/solve() are not documented to consume: residual_norms_ (0-3 symbolic entries), exact_errors_, number_of_iterations_, mean_residual_reduction_factor_, all work vectors of all levels, and (COMBINED mode: solve-without-setup history) either value of full_grid_smoothing_',
     'real solve() with real cycles on both, same symbolic right-hand side and tolerances; max_iterations <= 2',
     'a leftover state is reachable by a real history (first solve with >= leftover-count iterations, then solve() again); counterexamples are replayed natively from exactly this state',
+    'h_resetup: the used object runs setup() (and optionally solve()) with a first configuration, then nr_exp/ntheta_exp, extrapolation, strategy and the boundary mode are rewritten as the setters do and setup(), solve() run again; compared with a fresh object of the second configuration: number of levels, level grid shapes, solution after one cycle, iteration count, reduction factor',
     'exact real arithmetic; sqrt/pow as in C01; coefficients via the small-rational libm mode; -DNDEBUG; GMGPolar state built directly',
 ]
-OUTSIDE = ['option changes between the two solves that require a new setup() (then setup() rebuilds everything that is compared here)', 'grids other than 9x8/5x4', 'more than 2 iterations']
-BOUNDS = {'quick': 'COMBINED and no extrapolation, give, max_iterations 2, 2 leftover norms, with exact solution; 2 levels',
+OUTSIDE = ['option changes other than grid size, extrapolation, strategy and boundary mode before the second setup()', 'grids other than 9x8/5x4', 'more than 2 iterations']
+BOUNDS = {'quick': 'second setup() on a used object: 9x8 -> 17x16 (more levels), 17x16 -> 9x8, same size with changed extrapolation/boundary mode, against a fresh object (levels, grids, solution, iteration count); COMBINED and no extrapolation, give, max_iterations 2, 2 leftover norms, with exact solution; 2 levels',
           'thorough': 'extrapolation 0-3, both strategies, FMG on/off, 0-3 leftover norms, V and F cycle, max_iterations 1-2'}
 
 
@@ -22,12 +23,25 @@ def jobs(tier, seed):
                       label=f'reuse ex={ex} strategy={strat} dirbc={dirbc} maxit={maxit} leftover={nleft} tol={tolmode} exact={exact} fmg={fmg} cycle={"VWF"[cyc]}',
                       cls='reuse-combined' if ex == 3 else 'reuse', reach=['states-built', 'both-solved'], eager=False, libm_small=True, diff=diff, witness=True,
                       cap_quick=30, cap_thorough=300, solver_budget_quick=120, batch=12, point_refutation=True))
+    def resetup(ex, strat, dirbc, e1, e2, first, solve_between, maxlev, diff=False):
+        J.append(dict(entry='h_resetup', args=[ex, strat, dirbc, e1, e2, first, solve_between, maxlev],
+                      label=f'resetup to ex={ex} strategy={strat} dirbc={dirbc} size 2^{e1}->2^{e2} first-config={first} solve-between={solve_between} maxLevels={maxlev or -1}',
+                      cls='resetup', reach=['first-life-done', 'both-set-up', 'both-solved'], eager=False, libm_small=True, diff=diff, witness='lazy',
+                      cap_quick=30, cap_thorough=300, solver_budget_quick=120, batch=12, point_refutation=True))
     if q:
+        # a second setup() on the same object: larger grid (more levels than the first admitted), smaller grid, changed options on the same grid
+        resetup(0, 1, 0, 3, 4, 0 + 4 * 1 + 8 * 0, 1, 0)
+        resetup(1, 0, 1, 4, 3, 0 + 4 * 1 + 8 * 0, 0, 0)
+        resetup(0, 0, 1, 3, 3, 1 + 4 * 1 + 8 * 0, 1, 2, diff=True)
         add(3, 1, 0, 2, 2, 1, 1, 0, 0)
         add(0, 1, 1, 2, 2, 1, 1, 0, 0, diff=True)
         add(1, 0, 0, 1, 1, 1, 0, 1, 0)
         add(3, 1, 1, 1, 1, 1, 0, 1, 0)     # COMBINED with FMG: the start-up cycles must not see a leftover smoother switch either
     else:
+        for (e1, e2) in ((3, 4), (4, 3), (3, 3), (4, 4)):
+            for ex in (0, 1, 3):
+                for first in (0, 1 + 4, 3 + 8, 2 + 4 + 8):
+                    resetup(ex, (ex + e1) % 2, (first + e2) % 2, e1, e2, first, (ex + first) % 2, 0 if e1 != e2 else 2)
         for ex in (0, 1, 2, 3):
             for fmg in (0, 1):
                 for nleft in (0, 1, 3):
